@@ -240,3 +240,88 @@ Proof. rewrite firstn_app, Nat.sub_diag, firstn_all. cbn. apply app_nil_r. Qed.
 
 Lemma skipn_app_exact {A} (a b : list A) : skipn (length a) (a ++ b) = b.
 Proof. rewrite skipn_app, Nat.sub_diag, skipn_all. reflexivity. Qed.
+
+(* ------------------------------------------------------------------ find_sub, split1, split_on *)
+
+Lemma prefixb_length p : forall s, prefixb p s = true -> (length p <= length s)%nat.
+Proof.
+  induction p as [|x p IH]; intros s H; [cbn; lia|].
+  destruct s as [|y s]; [discriminate|]. cbn in H. apply andb_true_iff in H.
+  destruct H as [_ H]. apply IH in H. cbn. lia.
+Qed.
+
+Lemma prefixb_app p : forall s, prefixb p s = true -> exists r, s = p ++ r.
+Proof.
+  induction p as [|x p IH]; intros s H; [now exists s|].
+  destruct s as [|y s]; [discriminate|]. cbn in H. apply andb_true_iff in H.
+  destruct H as [E H]. apply N.eqb_eq in E. subst y. destruct (IH _ H) as [r ->]. now exists r.
+Qed.
+
+Lemma find_sub_from_spec p : forall s i j, find_sub_from p s i = Some j ->
+  exists k, j = (i + k)%nat /\ (k <= length s)%nat /\ prefixb p (skipn k s) = true.
+Proof.
+  induction s as [|c s IH]; intros i j H.
+  - cbn in H. destruct (prefixb p []) eqn:E; [|discriminate]. inversion H. subst.
+    exists 0%nat. repeat split; [lia|cbn; lia|exact E].
+  - cbn [find_sub_from] in H. destruct (prefixb p (c :: s)) eqn:E.
+    + inversion H. subst. exists 0%nat. repeat split; [lia|cbn; lia|exact E].
+    + destruct (IH _ _ H) as (k & -> & Hk & Hp). exists (S k). repeat split; [lia|cbn; lia|exact Hp].
+Qed.
+
+Lemma find_sub_spec p s i : find_sub p s = Some i ->
+  (i + length p <= length s)%nat /\ exists r, skipn i s = p ++ r.
+Proof.
+  unfold find_sub. intros H. destruct (find_sub_from_spec _ _ _ _ H) as (k & -> & Hk & Hp).
+  cbn [Nat.add]. split.
+  - apply prefixb_length in Hp. rewrite skipn_length in Hp. lia.
+  - now apply prefixb_app.
+Qed.
+
+Lemma split1_some c : forall s a b, split1 c s = (a, Some b) -> s = a ++ c :: b.
+Proof.
+  induction s as [|x s IH]; intros a b H; [discriminate|]. cbn [split1] in H.
+  destruct (N.eqb x c) eqn:E.
+  - apply N.eqb_eq in E. subst x. inversion H. reflexivity.
+  - destruct (split1 c s) as [a' b'] eqn:S. inversion H. subst. rewrite (IH _ _ eq_refl). reflexivity.
+Qed.
+
+Lemma split_on_nonempty c s : split_on c s <> [].
+Proof.
+  destruct s as [|x s]; cbn; [discriminate|]. destruct (N.eqb x c); [discriminate|].
+  destruct (split_on c s); discriminate.
+Qed.
+
+Lemma join_split_on c : forall s, join [c] (split_on c s) = s.
+Proof.
+  induction s as [|x s IH]; [reflexivity|]. cbn [split_on].
+  destruct (N.eqb x c) eqn:E.
+  - apply N.eqb_eq in E. subst x. rewrite join_cons by apply split_on_nonempty.
+    rewrite IH. reflexivity.
+  - destruct (split_on c s) as [|p ps] eqn:S; [exfalso; eapply split_on_nonempty; eauto|].
+    destruct ps as [|p' ps].
+    + cbn in *. now rewrite IH.
+    + rewrite join_cons by discriminate. rewrite join_cons in IH by discriminate.
+      rewrite <- IH. reflexivity.
+Qed.
+
+Lemma join_removelast sep ps : (2 <= length ps)%nat ->
+  join sep ps = join sep (removelast ps) ++ sep ++ last ps [].
+Proof.
+  induction ps as [|p ps IH]; [cbn; lia|]. intros H.
+  destruct ps as [|p' ps]; [cbn in H; lia|].
+  destruct ps as [|p'' ps].
+  - cbn. reflexivity.
+  - rewrite join_cons by discriminate.
+    change (removelast (p :: p' :: p'' :: ps)) with (p :: removelast (p' :: p'' :: ps)).
+    change (last (p :: p' :: p'' :: ps) []) with (last (p' :: p'' :: ps) []).
+    change (removelast (p' :: p'' :: ps)) with (p' :: removelast (p'' :: ps)).
+    rewrite (join_cons sep p (p' :: removelast (p'' :: ps))) by discriminate.
+    change (p' :: removelast (p'' :: ps)) with (removelast (p' :: p'' :: ps)).
+    rewrite IH by (cbn; lia). rewrite <- !app_assoc. reflexivity.
+Qed.
+
+Lemma skipn_skipn' {A} (x y : nat) (l : list A) : skipn x (skipn y l) = skipn (y + x) l.
+Proof.
+  revert l. induction y as [|y IH]; intros l; [reflexivity|].
+  destruct l as [|a l]; [now rewrite !skipn_nil|]. cbn [skipn Nat.add]. apply IH.
+Qed.
